@@ -160,6 +160,12 @@ class ChunkLoopTrans(LoopTrans):
                 f"Cannot apply a ChunkLoopTrans to a loop with larger step "
                 f"size ({node.step_expr.value}) than the chosen chunk size "
                 f"({chunk_size}).")
+        if int(node.step_expr.value) != 0 and \
+                abs(chunk_size) % abs(int(node.step_expr.value)) != 0:
+            raise TransformationError(
+                f"Cannot apply a ChunkLoopTrans to a loop whose step size "
+                f"({node.step_expr.value}) does not divide the chosen chunk "
+                f"size ({chunk_size}).")
         if 'chunked' in node.annotations:
             raise TransformationError("Cannot apply a ChunkLoopTrans to "
                                       "an already chunked loop.")
